@@ -227,6 +227,13 @@ def judge_relay(ctx, R, tr, ftr_strc):
     ctx.notes["relay_scenarios"] = R["scenarios"]
     ctx.notes["relay_events"] = R["events"]
     ctx.notes["relay_probe_default_max_attempts"] = R.get("probe")
+    pr = R.get("probe") or {}
+    if pr.get("fin_without_accept"):
+        # with the tools' default consumer configuration (go-nsq max_attempts = 5) a message refused 5 times is
+        # FINished by the consumer library without ever having been accepted by a destination
+        ctx.violation("nsq_to_nsq with its default configuration FINished a source message that no destination had accepted "
+                      "(destination refused 7 times in a row; go-nsq gives up after max_attempts=5): " + str(pr.get("stderr_tail", ""))[-200:],
+                      ctx.save_replay("relay-default-max-attempts", pr), key="relay:default-max-attempts-giveup")
     tot = {"delivered": 0, "fins": 0, "reqs": 0, "accepts": 0, "refusals": 0}
     quies = {}
     inconc = []
